@@ -21,7 +21,7 @@ RULE = ("GFF3 file databases with a depth-4 hierarchy, multi-parent and id-less 
         "fault cases: an update of n features whose one-shot source raises at position k for every k in 0..n, "
         "checklines 0 and 1; non-trivial history = contains an update after a delete or reopen; distinct by (base salt, word) "
         "and by (n, k, checklines)")
-REQUIRED = ["second-handle comparisons", "look-ups with Feature objects fetched before the step", "updates with hand-built Feature objects", "merge() outputs stored through update", "spawn-history steps compared", "bulk deletes (hundreds of ids in one call)", "iteration order compared after a step", "live-handle comparisons", "history steps applied", "content dumps compared with the model", ".bak compared with pre-operation content",
+REQUIRED = ["auto-keyed updates after a failed update on the same handle", "second-handle comparisons", "look-ups with Feature objects fetched before the step", "updates with hand-built Feature objects", "merge() outputs stored through update", "spawn-history steps compared", "bulk deletes (hundreds of ids in one call)", "iteration order compared after a step", "live-handle comparisons", "history steps applied", "content dumps compared with the model", ".bak compared with pre-operation content",
             "auto-generated keys checked for freshness", "faults injected", "faults injected mid-import (beyond the peek window)",
             "reopen steps", "failpoints fired inside gffutils", "metamorphic comparisons (batched updates vs single import)",
             "metamorphic comparisons (delete undoes the last update)"]
@@ -141,6 +141,11 @@ def derive(op, model, step, salt):
         return {"op": "update", "strategy": "merge", "batch": batch}
     if op == "C":
         k = pick_own()
+        # half of the time the replaced feature is the child of a hand-made relation (if there is one): replacing a
+        # feature takes ITS Parent links with it, nothing else
+        manual_children = [c for (p_, c, l_) in sorted(getattr(model, "manual", ())) if c in own and (p_, c, l_) in model.rels]
+        if manual_children and rng.random() < 0.5:
+            k = manual_children[rng.randrange(len(manual_children))]
         if not k:
             return {"op": "update", "strategy": "replace", "batch": []}
         f = model.feats[k]
@@ -161,9 +166,14 @@ def derive(op, model, step, salt):
     if op == "R":
         if len(ids) < 2:
             return {"op": "noop"}
+        direct = sorted((p_, c_) for (p_, c_, l_) in model.rels if l_ == 1 and p_ in model.feats and c_ in model.feats)
         for _ in range(30):
             p, c = rng.sample(ids, 2)
             lvl = rng.choice([1, 1, 2])
+            if direct and rng.random() < 0.35:
+                # a pair that is already a Parent link, related once more at another level
+                p, c = direct[rng.randrange(len(direct))]
+                lvl = rng.choice([2, 2, 3])
             if (p, c, lvl) not in model.rels and (p, c, lvl) not in model.optional:
                 return {"op": "add_relation", "parent": p, "child": c, "level": lvl, "as_feature": rng.random() < 0.5,
                         "hooks": rng.random() < 0.4}
@@ -496,6 +506,13 @@ def fault(ctx, case):
     db, dbfn, model, text = build_base(ctx, salt)
     try:
         batch = [rec("exon", 6000 + 10 * i, 6005 + 10 * i, [["ID", ["f%d" % i]], ["Parent", ["b"]]]) for i in range(n)]
+        strategy = "create_unique"
+        if case.get("autokeys"):
+            # features without an ID (keys exon_1, exon_2, ... come from the counters) and, among them, arrivals under the
+            # existing key 'b' with other coordinates (filed under a fresh 'b_n' by the merge strategy)
+            batch = [rec("exon", 6000 + 10 * i, 6005 + 10 * i, [["Parent", ["b"]], ["Note", ["auto%d" % i]]]) if i % 3 else
+                     rec("mRNA", 26000 + 10 * i, 26005 + 10 * i, [["ID", ["b"]], ["Note", ["other place %d" % i]]]) for i in range(n)]
+            strategy = "merge"
         feats = [feature_from_line(line(r)) for r in batch]
 
         def source():
@@ -511,7 +528,7 @@ def fault(ctx, case):
         before = dbdump.dump(dbfn)
         raised = None
         try:
-            db.update(source(), merge_strategy="create_unique", make_backup=True, checklines=ck)
+            db.update(source(), merge_strategy=strategy, make_backup=True, checklines=ck)
         except Injected as ex:
             raised = ex
         except Exception as ex:
@@ -536,6 +553,28 @@ def fault(ctx, case):
                                  "diff": d, "checklines": ck})
             return
         del raised
+        if case.get("autokeys"):
+            # whatever the failed update left behind: the SAME handle goes on handing out keys nobody holds.  (The failed
+            # importer's own connection keeps its write lock until that object is garbage-collected - an immediate retry
+            # raises 'database is locked' on the unchanged tree; not part of the statement, so collect first.)
+            import gc
+            gc.collect()
+            held = set(f["id"] for f in dbdump.dump(dbfn)["features"])
+            more = [feature_from_line(line(rec("exon", 46000 + 10 * i, 46005 + 10 * i, [["Parent", ["b"]], ["Note", ["later%d" % i]]])))
+                    for i in range(3)]
+            try:
+                db.update(more, make_backup=False)      # default strategy: any collision of a handed-out key raises
+            except Exception as ex:
+                ctx.violation(case, {"why": "an update of features without ID raised %r on the handle whose previous update had "
+                                            "failed part-way (position %d of %d)" % (ex, k, n), "keys_held_after_the_failure": sorted(held)[:30]})
+                return
+            now = [f for f in dbdump.dump(dbfn)["features"]]
+            fresh = [f["id"] for f in now if f["id"] not in held]
+            ctx.mon("auto-keyed updates after a failed update on the same handle")
+            if len(fresh) != 3 or len(set(f["id"] for f in now)) != len(now):
+                ctx.violation(case, {"why": "after a failed update, three further features without ID did not each get a key of their own",
+                                     "new_keys": fresh, "held_before": sorted(held)[:30]})
+            return
         if k >= n:
             model.update(batch, "create_unique")
             d = model.compare(dbdump.dump(dbfn))
@@ -916,6 +955,14 @@ def run(ctx):
                 case = {"kind": "fault", "salt": (ctx.seed + j) % 50, "n": n, "k": k, "checklines": ck}
                 execute(ctx, case)
                 ctx.case(("fault", n, k, ck), k < n, sample=case, cls="fault position")
+    # failures beyond the importer's read-ahead, among features keyed by the counters, then more such features on the same handle
+    for n, k, ck in ((16, 13, 10), (16, 15, 10), (20, 14, 1), (30, 27, 10), (8, 5, 0), (16, 16, 10)):
+        j += 1
+        if not ctx.mine(j):
+            continue
+        case = {"kind": "fault", "salt": (ctx.seed + j) % 50, "n": n, "k": k, "checklines": ck, "autokeys": True}
+        execute(ctx, case)
+        ctx.case(("fault-autokeys", n, k, ck), k < n, sample=case, cls="fault position (auto-keyed features)")
     run_failpoints(ctx)
     j = 0
     for dw in range(3):
